@@ -1236,6 +1236,14 @@ class Terms(object):
                 isinstance(args[1][1], str):
             return ("attr", args[0], args[1][1])
         ft = T(f, node, env)
+        # S.pack(...) etc. on a module-level S = struct.Struct(<format>) reads
+        # as struct.pack(<format>, ...)
+        if ft[0] == "attr" and ft[1][0] == "global" and ft[2] in (
+                "pack", "unpack", "unpack_from", "pack_into", "iter_unpack"):
+            fmt = _struct_consts(self.fn).get(ft[1][1])
+            if fmt is not None:
+                ft = ("attr", ("global", "struct"), ft[2])
+                args = (("const", fmt),) + args
         inl = self._inline(e, ft, args, kws, node)
         if inl is not None:
             return inl
@@ -2168,6 +2176,42 @@ def layers(T, d):
         if not fwd:
             raise AnalysisError("layers: writes are not totally ordered")
     return events
+
+
+def _struct_consts(fn):
+    """{name: format} of the module-level ``name = struct.Struct(<constant
+    format>)`` assignments of the module ``fn`` lives in."""
+    m = getattr(fn, "_module", None)
+    n = fn
+    while m is None and n is not None:
+        n = getattr(n, "_parent", None)
+        m = getattr(n, "_module", None)
+    if m is None:
+        return {}
+    cache = getattr(m, "_struct_consts", None)
+    if cache is None:
+        cache = {}
+        for st in m.tree.body:
+            if isinstance(st, ast.Assign) and len(st.targets) == 1 and \
+                    isinstance(st.targets[0], ast.Name) and \
+                    isinstance(st.value, ast.Call) and \
+                    unparse(st.value.func) in ("struct.Struct", "Struct") \
+                    and len(st.value.args) == 1 and \
+                    isinstance(st.value.args[0], ast.Constant) and \
+                    isinstance(st.value.args[0].value, (str, bytes)):
+                v = st.value.args[0].value
+                cache[st.targets[0].id] = v if isinstance(v, str) else \
+                    v.decode("ascii")
+        # a name assigned twice is not a constant
+        seen = {}
+        for st in m.tree.body:
+            if isinstance(st, ast.Assign):
+                for t in st.targets:
+                    if isinstance(t, ast.Name):
+                        seen[t.id] = seen.get(t.id, 0) + 1
+        cache = {k: v for k, v in cache.items() if seen.get(k) == 1}
+        m._struct_consts = cache
+    return cache
 
 
 def as_lambda(T, t):
